@@ -90,7 +90,7 @@ UnLayer(fam, S) ==
          \cup {<<"collect", r, "vec">> : r \in Reps(S, {<<0, Inf>>})}
          \cup {<<"collect", <<cf, <<"rep", a, 0, Inf>>>>, "vec">> : cf \in {"cfgrep", "cfgrepmin", "cfgrepmax"}, a \in {x \in S : ~CanEmpty(x)}}
          \cup {<<"run", <<"cfgrep", <<"rep", a, 0, Inf>>>>>> : a \in {x \in S : ~CanEmpty(x)}}
-    [] fam \in {"spn", "spng", "spnr"} ->
+    [] fam \in {"spn", "spng", "spnr", "spni"} ->
          \* every node can be wrapped in a span / slice capture (to_slice only where the kind has slices)
          Un(S, IF fam = "spn" THEN {"tospan", "toslice", "mw", "ornot", "rewind"} ELSE {"tospan", "mw", "ornot", "rewind"})
          \cup {<<"collect", r, "vec">> : r \in Reps(S, {<<0, Inf>>})}
@@ -116,7 +116,7 @@ BinLayer(fam, S1, S2) ==
                       \cup {<<"choice", <<a, b>>>> : a \in S1, b \in S2} \cup {<<"choicev", <<a, b>>>> : a \in S1, b \in S2}
     [] fam = "emit" -> Bin(S1, S2, {"then", "or", "andis"})
     [] fam = "err" -> Bin(S1, S2, {"then", "or", "andis"}) \cup {<<"choicev", <<a, b>>>> : a \in S1, b \in S2}
-    [] fam \in {"spn", "spng", "spnr"} ->
+    [] fam \in {"spn", "spng", "spnr", "spni"} ->
          Bin(S1, S2, {"then", "or"})
          \cup {<<"foldlw", a, <<"rep", b, 0, Inf>>, "g">> : a \in S1, b \in {x \in S2 : ~CanEmpty(x)}}
          \cup {<<"foldrw", <<"rep", a, 0, Inf>>, b, "g">> : a \in {x \in S1 : ~CanEmpty(x)}, b \in S2}
@@ -142,6 +142,8 @@ LeavesOf(fam) ==
     [] fam = "err" -> {J("a"), J("b"), JJ("a", "b"), <<"any">>, <<"end">>, <<"cust", 1, FALSE>>}
     [] fam = "rep" -> {J("a"), J("b"), J(","), JJ("a", "b"), <<"any">>}
     [] fam \in {"spn", "spng"} -> {J("a"), JJ("a", "b"), <<"any">>, <<"empty">>}
+    \* what an IterInput can carry (it cannot hand out tokens by value: no any / one_of / select / not)
+    [] fam = "spni" -> {J("a"), JJ("a", "b"), J("b"), <<"empty">>}
     \* the same with the by-reference primitives (inputs that can lend their tokens: slices, Input::map over a slice)
     [] fam = "spnr" -> {J("a"), <<"anyr">>, <<"selr", <<"a">>>>, <<"any">>, <<"empty">>}
     [] fam = "rcv" -> {J("a"), J("b"), JJ("a", "b"), <<"any">>}
@@ -329,12 +331,12 @@ GapTemplates ==
   \cup {<<"collect", <<"rep", <<"then", J("a"), <<"tospan", <<"ornot", J("b")>>>>>>, 0, Inf>>, "vec">>,
         <<"foldlw", <<"any">>, <<"rep", <<"then", J("a"), <<"tospan", <<"empty">>>>>>, 0, Inf>>, "g">>,
         <<"foldrw", <<"rep", J("a"), 0, Inf>>, <<"tospan", <<"empty">>>>, "g">>}
-Templates(fam) == CASE fam = "memoT" -> MemoTemplates [] fam = "gapT" -> GapTemplates [] fam = "rcvE" -> RcvETemplates [] fam = "stat" -> StatGrammars [] fam = "rcvN" -> RcvNTemplates [] fam = "txt" -> TxtTemplates [] fam = "txtc" -> TxtCTemplates
+Templates(fam) == CASE fam = "memoT" -> MemoTemplates [] fam = "gapT" -> GapTemplates [] fam = "gapTi" -> {g \in GapTemplates : ~HasOp(g, {"any", "not"})} [] fam = "rcvE" -> RcvETemplates [] fam = "stat" -> StatGrammars [] fam = "rcvN" -> RcvNTemplates [] fam = "txt" -> TxtTemplates [] fam = "txtc" -> TxtCTemplates
                     \* byte inputs have no text::newline; the radix family looks at int / digits only
                     [] fam = "txtb" -> {g \in TxtTemplates \cup TxtCTemplates : ~HasOp(g, {"newline"}) /\ g \notin {TUKw(<<"E", "a">>), <<"then", TUKw(<<"E", "a">>), RestCap>>}}
                     [] fam = "txtr" -> {<<"then", tp, RestCap>> : tp \in {TDigits(r) : r \in {"2", "8", "10", "16", "36"}} \cup {TInt(r) : r \in {"2", "8", "10", "16", "36"}}} [] fam = "drpT" -> DrpTemplates [] fam = "rcvT" -> RcvTemplates [] fam = "lblT" -> LblTemplates
                     [] fam = "pratt" -> PrattTemplates [] fam = "rec" -> RecTemplates [] fam = "lrec" -> LRecTemplates [] fam = "repT" -> RepTemplates
-TemplateFams == {"rec", "lrec", "repT", "pratt", "memoT", "rcvT", "lblT", "drpT", "txt", "txtc", "txtb", "txtr", "gapT", "rcvN", "stat", "rcvE"}
+TemplateFams == {"rec", "lrec", "repT", "pratt", "memoT", "rcvT", "lblT", "drpT", "txt", "txtc", "txtb", "txtr", "gapT", "gapTi", "rcvN", "stat", "rcvE"}
 
 Grammars == IF Fam \in TemplateFams THEN {g \in Templates(Fam) : Fam = "lrec" \/ WF(g)}
             ELSE {g \in UNION {GSz(Fam, n) : n \in 1..MaxSize} : WF(g)}
